@@ -55,6 +55,7 @@ type interpreter struct {
 	builders map[*value]*[]byte    // strings.Builder / bytes.Buffer contents by address
 	mutexes  map[*value]*vmMutex   // sync.Mutex / RWMutex state by address
 	steps   int64
+	tracked []value
 	stackPrinted bool
 }
 
@@ -490,7 +491,7 @@ func prepareCall(fr *frame, call *ssa.CallCommon) (fn value, args []value) {
 		// Interface method invocation.
 		recv := v.(iface)
 		if recv.t == nil {
-			panic("method invoked on nil interface")
+			panic(targetRuntimeError("invalid memory address or nil pointer dereference (method call on nil interface)"))
 		}
 		if f := lookupMethod(fr.i, recv.t, call.Method); f == nil {
 			// Unreachable in well-typed programs.
